@@ -26,14 +26,14 @@ UNITS = {
 
 PROPS = {
     'C03': dict(
-        units=[('codec_mut', r'(with_capacity|read_push|push_null|Version\.|impl Version)'), ('event', r'(parse_event__(pre|post|start|item|end)|C03)')],
+        units=[('codec_mut', r'(with_capacity|read_push|push_null|Version\.|impl Version)'), ('event', r'(parse_event__(pre|post|start|item|end)|C03)'), ('codec_imm', r'(transpose_one)')],
         kani=['kshim_byteorder_be', 'kcodec_start_read_push', 'kcodec_end_read_push', 'kcodec_pre_read_push', 'kcodec_item_read_push', 'kcodec_post_read_push'],
     ),
     'C01': dict(
-        units=[('ser', r'(write|payload_sizes|gecko_codes|game_start|game_end|PayloadSizes|frame_counts|C01|Frame::len)'),
+        units=[('ser', r'(write|payload_sizes|gecko_codes|game_start|game_end|PayloadSizes|frame_counts|C01|Frame::len|End::size|game\.End\.size)'),
                ('codec_imm', r'(write|size|from|emit|encode_decode|lemma_|C12\.finished_columns)'),
                ('codec_mut', r'(read_push|with_capacity|push_null)'),
-               ('event', r'(C04\.|C03\.|C12\.|C08\.sized_event_accepted|parse_event__(pre|post|start|item|end|other|splitter)|frame_close$|frame_open)'),
+               ('event', r'(C04\.|C03\.|C12\.|C08\.sized_event_accepted|parse_event__(pre|post|start|item|end|other|splitter)|frame_close$|frame_open|End::size|game\.End\.size)'),
                ('reader', r'(^read$|^parse_start|^parse_header|^parse_payloads|^parse_game_start|expect_bytes|C12\.|C01\.|C08\.)')],
         kani=['kshim_byteorder_be', 'kshim_byteorder_write_be'],
     ),
@@ -44,12 +44,12 @@ PROPS = {
     ),
     'C17': dict(
         units=[('reader', r'(C04\.last_frame_closed_at_end_of_stream|C01\.duplicate_game_end|C01\.no_event_parsed|C01\.tail_content)'), ('event', r'(frame_close|C04\.closed_frame_is_level|C04\.every_column_one_entry_per_row)'),
-               ('ser', r'(raw_size|frame_counts|gecko_codes_size|gecko_codes$|payload_sizes|PayloadSizes|lemma_|emit_len|C17|Frame::write|::write$|Frame::len|C01\.payload_table|C01\.file_layout|C01\.frames_canonical_order|C01\.gecko_blocks)')],
+               ('ser', r'(raw_size|frame_counts|gecko_codes_size|gecko_codes$|End::size|game\.End\.size|payload_sizes|PayloadSizes|lemma_|emit_len|C17|Frame::write|::write$|Frame::len|C01\.payload_table|C01\.file_layout|C01\.frames_canonical_order|C01\.gecko_blocks)')],
         kani=[],
     ),
     'C04': dict(
         units=[('event', r'(parse_event|frame_close|frame_open|last_id|with_capacity|push_null|Data::len|PortData::len|Frame::len|lemma_|C04)', r'(parse_event__(pre|post|start|item|end)|frame_close|frame_open)$'),
-               ('codec_mut', r'(push_null|with_capacity)'), ('reader', r'(C04)'), ('codec_imm', r'(C12\.finished_columns|from__(Data|PortData|Frame)$)')],
+               ('codec_mut', r'(push_null|with_capacity|impl Version|Version::)'), ('reader', r'(C04)'), ('codec_imm', r'(C12\.finished_columns|from__(Data|PortData|Frame)$)')],
         kani=[],
     ),
     'C05': dict(
@@ -75,7 +75,7 @@ PROPS = {
         kani=[],
     ),
     'C10': dict(
-        units=[('reader', r'(C10|^read$|^parse_start)'), ('slpp', r'(C10|lemma_skip_frames|(^|::)read$)')],
+        units=[('reader', r'(C10|^read$|^parse_start)'), ('slpp', r'(C10|lemma_skip_frames|(^|::)read$)'), ('hash', r'(C10|seek)'), ('ser', r'(payload_sizes$|C01\.payload_table|C01\.payload_entry)')],
         kani=[],
     ),
     'C08': dict(
